@@ -336,6 +336,7 @@ func codecSequences(r *mc.Registry) {
 			seq := make([]codecOp, depth)
 			seq[0] = ops[first]
 			nEAO := 0
+			seen := map[string]bool{}
 			for k := 0; k < total; k++ {
 				m := k
 				for i := depth - 1; i >= 1; i-- {
@@ -343,11 +344,13 @@ func codecSequences(r *mc.Registry) {
 					m /= len(ops)
 				}
 				key, msg, trace, eao := runCodecSeq(vals, seq)
-				if key != "" {
+				if key != "" && !seen[key] {
+					// one report per key and leaf (the shortest-first enumeration gives a minimal sequence)
+					seen[key] = true
 					for _, l := range trace {
 						x.Logf("%s", l)
 					}
-					x.Fail(key, "%s\n  operation sequence: %s", msg, strings.Join(trace, "; "))
+					x.Report(key, "%s\n  operation sequence: %s", msg, strings.Join(trace, "; "))
 				}
 				if eao {
 					nEAO++
